@@ -76,6 +76,10 @@ pub trait Property: Sync {
     fn required_classes(&self) -> Vec<&'static str> {
         vec![]
     }
+    /// bound on proptest shrink iterations (each re-runs `check`)
+    fn max_shrink_iters(&self) -> u32 {
+        1500
+    }
 }
 
 #[derive(Clone, Debug)]
@@ -131,6 +135,8 @@ impl RunOpts {
         RunOpts { tier, seed, shards, scale }
     }
 }
+
+static SAVED_KNOWN: AtomicBool = AtomicBool::new(false);
 
 #[derive(Default)]
 struct Agg {
@@ -261,7 +267,7 @@ pub fn run_property<P: Property>(p: &P, opts: &RunOpts) -> RunSummary {
                         cases: per_shard,
                         failure_persistence: None,
                         rng_seed: RngSeed::Fixed(0),
-                        max_shrink_iters: 4000,
+                        max_shrink_iters: p.max_shrink_iters(),
                         max_global_rejects: 1_000_000,
                         max_local_rejects: 1_000_000,
                         ..Config::default()
@@ -278,7 +284,12 @@ pub fn run_property<P: Property>(p: &P, opts: &RunOpts) -> RunSummary {
                         if stop.load(Ordering::Relaxed) && !failed.get() {
                             return Ok(());
                         }
-                        let r = p.check(&case, tier);
+                        let r = match std::panic::catch_unwind(std::panic::AssertUnwindSafe(|| p.check(&case, tier))) {
+                            Ok(r) => r,
+                            // a panic inside the interpreter belongs to C01; for this property
+                            // the case is inconclusive (counted as a discard with its signature)
+                            Err(_) => CaseResult::Discard(format!("panic inside the case, see C01: {}", crate::isolate::last_panic())),
+                        };
                         let mut l = local_cell.borrow_mut();
                         match r {
                             CaseResult::Ok(rep) => {
@@ -308,6 +319,10 @@ pub fn run_property<P: Property>(p: &P, opts: &RunOpts) -> RunSummary {
                             }
                             CaseResult::Violation(v, rep) => {
                                 if let Some(k) = known_match(known, p.id(), &v.signature) {
+                                    if std::env::var("VERIF_SAVE_KNOWN").is_ok() && !SAVED_KNOWN.swap(true, Ordering::Relaxed) {
+                                        let path = write_replay(p.id(), &case, &v, "");
+                                        eprintln!("saved known-finding case to {}", path);
+                                    }
                                     if !failed.get() {
                                         l.cases += 1;
                                         l.evaluations += rep.evals;
